@@ -3,7 +3,8 @@ from common import Ctx, RULES, standard_unit_leg
 PID = "C14"
 COQ_FILES = ["Model/Base.v", "Gen/Dr.v", "Spec/DrArch.v", "Model/Dr.v", "Model/Wp.v", "Model/WpE2E.v",
              "Proofs/DrProofs.v", "Proofs/WpProofs.v", "Properties/C14.v",
-             "Model/WpKernel.v", "Proofs/WpKernelProofs.v", "Properties/C14K.v"]
+             "Model/WpKernel.v", "Proofs/WpKernelProofs.v", "Properties/C14K.v",
+             "Model/WpX.v", "Proofs/WpXProofs.v", "Properties/C14X.v"]
 RULES[PID] = ("unit leg: DR6/DR7 images (sparse, dense, one-bit-cleared, random 64-bit) x dr_enabled/configure_bp/set_dr/detect_and_flush, "
               "real functions vs model (non-trivial: image != 0, distinct by case text). e2e leg: a real multi-threaded debuggee; seeded "
               "histories of watch-by-address (sizes 1/2/4/8, w/rw, aligned sub-offsets of 6 globals), scoped expression watch on a caller's local, "
